@@ -64,7 +64,7 @@ def kind_matches(v, spec, st):
                 return True
         if alt.startswith("fn") and v.k == FN:
             return True
-        if alt.startswith("list[") and v.k == REF and isinstance(st.heap[v.t], (SList, CList)):
+        if alt.startswith("list[") and v.k == REF and isinstance(st.heap[v.t], (SList, CList, AList)):
             return True
         if alt.startswith("alist[") and v.k == REF and isinstance(st.heap[v.t], AList):
             return True
